@@ -135,6 +135,18 @@ PADS = ["", " ", "\n", "\n\n\n", "\t", "  \t ", "\r\n", "// c\n", "/* \u00e9 */ 
         "local long = '" + "x" * 300 + "';\n", "\n" * 40, "/*" + " " * 100000 + "*/", "/* {XFF}{XFE}{X80} */ ", "/* \t\t */\t"]
 
 
+# errors whose span covers several lines, placed so that the span starts just before and ends just after the line number gains
+# a digit (9|10, 99|100, 999|1000): the width of the line-number margin depends on which end is looked at
+MULTILINE = [
+    "{P}null{M}+ 1", "{P}{a: 1}{M}.b", "{P}[1, 2][{M}5]", "{P}error{M}'msg'", "{P}local x ={M}null; x + 1", "{P}assert false :{M}'m'; 1",
+    "{P}std.length({M}1)", "{P}{ a:{M}error 'f' }.a", "{P}'unterminated{M}", "{P}/* unterminated{M}", "{P}|||\n  text{M}", "{P}zz({M}1)",
+    "{P}local f(x) = x{M}+ null; f(1)", "{P}[1,{M}null < 2][1]", "{P}{ assert{M}false : 'a' }", "{P}if null{M}then 1 else 2",
+    "{P}(function(a){M}a)()", "{P}std.map(function(x){M}x.q, [1])", "{P}{a: 1} +{M}{a+: 'x'} + {b: self.a + 1}.b",
+]
+MULTI_PADS = [7, 8, 9, 10, 97, 98, 99, 100, 997, 998, 999, 1000]
+MULTI_GAPS = ["\n", "\n\n", "\n\n\n", "\r\n", "\n// c\n"]
+
+
 def latin(b):
     return b.decode("latin-1")
 
@@ -425,6 +437,10 @@ def run(tier, seed):
             if "{P}" not in tmpl and pad:
                 continue
             cases.append((tmpl, pad, rng.choice(paths), rng.choice([None, None, 3, 40])))
+    for tmpl in MULTILINE:
+        for lines in (MULTI_PADS if not quick else rng.sample(MULTI_PADS, 5)):
+            for gap in (MULTI_GAPS if not quick else rng.sample(MULTI_GAPS, 2)):
+                cases.append((tmpl.replace("{M}", gap), "\n" * (lines - 1), rng.choice(paths), rng.choice([None, None, 40])))
     rng.shuffle(cases)
     for a in common.pmap(templates_shard, [(seed, cases[i::32]) for i in range(32)]):
         total.merge(a)
@@ -443,7 +459,8 @@ def run(tier, seed):
         total.merge(a)
     rule = (f"{len(FAILING)} failing templates (one per error family/kind: lexical, syntactic, static, run-time incl. "
             "imports, asserts, type errors, overflows, cycles) x paddings that move the error (first byte, after CRLF / "
-            "tab / multi-byte / invalid UTF-8 / 100 000-column lines / 40 blank lines) + corpus mutants: (1) every "
+            "tab / multi-byte / invalid UTF-8 / 100 000-column lines / 40 blank lines) + " + str(len(MULTILINE)) + " templates whose error span covers "
+            "several lines and straddles the lines 9|10, 99|100, 999|1000 + corpus mutants: (1) every "
             "span of the structured error and of each stack-trace item lies inside its source with start <= end; (2) "
             "rendered by Session plain and coloured with max_trace in {none,0,1,2,3,7}: no failure, an 'error:' "
             "header, the first location line names the file, the line computed from the span start and (for "
